@@ -3,6 +3,7 @@ package main
 import (
 	"fmt"
 	"reflect"
+	"strings"
 
 	"github.com/go-spatial/geom"
 	"verif/engine/lat"
@@ -76,7 +77,7 @@ func scopesC08(thorough bool) []Scope {
 		return q
 	}
 	all4 := subsetsOf([]int{0, 1, 2, 3})
-	return []Scope{
+	scs := []Scope{
 		// 2x2 window of id-1 pixels on a 4-level grid: 1x1 at id 0, 4x4 at id 2, 8x8 at id 3
 		{Name: "L-multi4", GS: synthGS(3, 2, [2]int64{60, 60}), Spec: lat.Spec{Points: scale(lat.Window(2, 2, 2), 4), MaxK: k(4, 5), Valid: true}, IDSets: all4, Cfgs: allCfgs},
 		// straddling the root centre at every level
@@ -87,6 +88,14 @@ func scopesC08(thorough bool) []Scope {
 			IDSets: [][]int{{0}, {1}, {2}, {3}, {0, 3}, {1, 3}, {2, 3}, {1, 2}, {0, 1, 2, 3}}, Cfgs: keepCfgs},
 		{Name: "C-walk-deep", GS: synthGS(2, 2, [2]int64{31, 31}), Spec: lat.Spec{Points: lat.Centres(2, 2), MinK: 1, MaxK: k(5, 7), Repeats: true}, IDSets: subsetsOf([]int{0, 1, 2}), Cfgs: keepCfgs},
 	}
+	// the families of larger polygons that live on a three-level grid (thin frames, comb-sided holes): every subset of the ids
+	for _, f := range cellScopes(thorough) {
+		if strings.HasPrefix(f.Name, "F-cells-multi") || strings.HasPrefix(f.Name, "F-comb-multi") {
+			f.IDSets = subsetsOf([]int{0, 1, 2})
+			scs = append(scs, f)
+		}
+	}
+	return scs
 }
 
 func init() {
